@@ -355,5 +355,11 @@ def unknown_refs(ctx: Ctx):
     ctx.ob("unknown-ignored", "collator.py::SortByValueCollator._iter_fixed_idxs", ok, True, ok, "a fixed id that matches nothing (incl. None) is skipped")
     ex = ctx.repo.cls("collator.py", "ExplicitOrderCollator")
     m = ctx.repo.lookup(ex, "_element_order_descriptors")
-    ok = "if element_id in remaining_element_idxs_by_id:" in ast.unparse(m.node)
-    ctx.ob("unknown-ignored", "collator.py::ExplicitOrderCollator._element_order_descriptors", ok, True, ok, "an explicit-order id that matches nothing (incl. None) is ignored")
+    from ..orderkit import explicit_order_facts
+
+    f = explicit_order_facts(m.node)
+    where = "collator.py::ExplicitOrderCollator._element_order_descriptors"
+    if f["unguarded_pop"]:
+        ctx.violated("unknown-ignored", where, f["unguarded_pop"], "pop under `id in map`", "an explicit-order id that matches nothing would raise KeyError")
+    else:
+        ctx.ob("unknown-ignored", where, f"pop guarded by membership: {f['listed_pop_guarded']}", "an explicit-order id that matches nothing (incl. None) is ignored", True if f["listed_pop_guarded"] else None)
